@@ -273,6 +273,49 @@ func genuineAt(c cid.Cid, candidates ...*entry.Entry) *entry.Entry {
 	return candidates[len(candidates)-1]
 }
 
+// runC04ForeignHistory: the genuine head of ANOTHER database of the same authorised writer, with a history
+// of k entries, is announced to the victim: none of them may show up.
+func runC04ForeignHistory(k int, route, pre string) (string, []explore.Violation) {
+	w, err := NewAdv(AdvOptions{Kind: "eventlog", Writers: []string{"A", "B"}})
+	if err != nil {
+		return "harness: " + err.Error(), nil
+	}
+	defer w.Close()
+	id := fmt.Sprintf("foreign history of %d entries route=%s pre=%s", k, route, pre)
+	var vs []explore.Violation
+	a1, _ := w.Write(w.SA, "a1")
+	a2, _ := w.Write(w.SA, "a2")
+	_ = a1
+	if pre == "holds" {
+		_ = w.Deliver("sync", w.A, []*entry.Entry{a2})
+		_ = sim.Quiesce()
+	}
+	before, beforeView := strings.Join(w.VictimSet(), ","), w.VictimView()
+	var head *entry.Entry
+	var foreign []*entry.Entry
+	for i := 1; i <= k; i++ {
+		head, err = w.Write(w.SA2, fmt.Sprintf("f%d", i))
+		if err != nil {
+			return "harness: " + err.Error(), nil
+		}
+		foreign = append(foreign, head)
+	}
+	_ = w.Deliver(route, w.A, []*entry.Entry{head})
+	if err := sim.Quiesce(); err != nil {
+		return "hang", []explore.Violation{{Signature: "hang-after-foreign-history", Detail: id}}
+	}
+	for _, f := range foreign {
+		if w.VictimHas(f.Hash) {
+			vs = append(vs, explore.Violation{Signature: "foreign-database-entry-merged:history", Detail: fmt.Sprintf("%s: victim exposes %s (log %v)", id, w.Name(f.Hash), w.VictimSet()), History: []string{id}})
+			break
+		}
+	}
+	if after := strings.Join(w.VictimSet(), ","); after != before || w.VictimView() != beforeView {
+		vs = append(vs, explore.Violation{Signature: "foreign-history-changed-victim", Detail: fmt.Sprintf("%s: [%s] %q -> [%s] %q", id, before, beforeView, after, w.VictimView()), History: []string{id}})
+	}
+	return "foreign history rejected=" + fmt.Sprint(len(vs) == 0), vs
+}
+
 func fieldOf(mutName string) string {
 	if i := strings.IndexAny(mutName, "-=+"); i > 0 {
 		return mutName[:i]
@@ -283,7 +326,7 @@ func fieldOf(mutName string) string {
 func init() {
 	explore.Register(&explore.CheckDef{
 		ID: "C04", Level: "exploration",
-		Rule: "full cross product on fresh worlds: valid entry {root, chain member with refs, merge entry with two nexts} x 29 single-field mutations of its wire form (payload, clock time x4, clock id x2, next x3, refs, key x3, signature x3, log id x2, v x2, identity fields x6, claimed hash x2) x delivery {announced with the original claimed hash, announced with recomputed hash, stored as a block and referenced as ancestor by an authorised colluder's valid head} x route {sync, topic, direct channel} x victim pre-state {empty, already holds the valid entries}. The harness classifies each mutant independently (content does not hash to the claimed address; the dependency's signature verification over the mutated content fails; log id differs); mutants in a class must be absent from log and view and the held entries and view unchanged; mutants in no class (identity-block mutations, judged by C03) are recorded only. Non-trivial = judged mutants.",
+		Rule: "full cross product on fresh worlds: valid entry {root, chain member with refs, merge entry with two nexts} x 29 single-field mutations of its wire form (payload, clock time x4, clock id x2, next x3, refs, key x3, signature x3, log id x2, v x2, identity fields x6, claimed hash x2) x delivery {announced with the original claimed hash, announced with recomputed hash, stored as a block and referenced as ancestor by an authorised colluder's valid head} x route {sync, topic, direct channel} x victim pre-state {empty, already holds the valid entries}. The harness classifies each mutant independently (content does not hash to the claimed address; the dependency's signature verification over the mutated content fails; log id differs); mutants in a class must be absent from log and view and the held entries and view unchanged; mutants in no class (identity-block mutations, judged by C03) are recorded only. Plus: the genuine head of another database of the same writer with a history of 1, 2, 3, 5 entries x route x pre-state; no foreign entry may be exposed. Non-trivial = judged mutants.",
 		Units:  func(tier string) []explore.Unit { return explore.ChunkUnits("c04", 16) },
 		Budget: func(tier string) float64 { return 400 },
 		RunUnit: func(c *explore.Ctx) {
@@ -293,6 +336,15 @@ func init() {
 			for _, cs := range c04Cases() {
 				cs := cs
 				cases = append(cases, explore.Case{ID: cs.ID(), Nontrivial: !ms[cs.Mut].identity, Run: func() (string, []explore.Violation) { return runC04Case(cs) }})
+			}
+			for _, k := range []int{1, 2, 3, 5} {
+				for _, r := range []string{"sync", "topic", "direct"} {
+					for _, pre := range []string{"empty", "holds"} {
+						k, r, pre := k, r, pre
+						cases = append(cases, explore.Case{ID: fmt.Sprintf("foreign history of %d entries route=%s pre=%s", k, r, pre), Nontrivial: true,
+							Run: func() (string, []explore.Violation) { return runC04ForeignHistory(k, r, pre) }})
+					}
+				}
 			}
 			explore.RunCases(c, "C04", cases, i, n)
 		},
